@@ -30,6 +30,10 @@ def classify(c):
         # state level, depth 4: an entry whose only change flag sits on a side that has lost its id is put back into the
         # pending set when the OTHER side is (re-)assigned an id (_change_oid adds on `either side changed`)
         return "G17-pending-set-readmits-entry-whose-changed-side-has-no-id"
+    if c["property"] == "C11" and job.get("base") == "B3" and kind.startswith(("engine:pending", "reloaded:pending")):
+        # id take-over on a path-id side (b removed, a renamed onto b) while the peer deletes/edits b: the ousted entry keeps
+        # sitting in the pending set with no id on either side / without any change flag
+        return "G18-id-take-over-leaves-ghost-entry-in-pending-set"
     ops = _ops(job)
     opts = job.get("opts") or {}
     if opts.get("resolver") == "merged_keep" and kind == "noquiesce":
@@ -100,7 +104,8 @@ def classify(c):
     if c["property"] in ("C07", "C10"):
         kinds = [op[0] for _, op in ops]
         paths = [op[1] for _, op in ops]
-        if kinds in (["write", "write"], ["create", "write"]) and paths[0] == paths[1]:
+        if (kinds in (["write", "write"], ["create", "write"]) and paths[0] == paths[1]) or \
+                (opts.get("unsynced_base") and kinds == ["write"]):
             # die right after the engine uploaded v1 (not yet recorded); the user writes v2 while it is down: after the
             # restart both sides differ from the recorded hash -> treated as a two-sided conflict -> .conflicted artefact
             return "G6-crash-after-upload-then-newer-edit"
